@@ -187,7 +187,7 @@ harness!(c10_fault_b, 8, fault(&B::build(&obj(&[1], &[arr(&[leaf(K_NULL, 0)])]))
 pub fn marker_parse_value(_buf: &[u8]) -> Result<Value<'_>, Error> {
     Err(Error::InvalidToken)
 }
-//@ props: C10, C11
+//@ props: C10
 //@ timeout: 900
 //@ desc: text is never misread as binary: (1) is_jsonb is true exactly for a first byte 0x20, 0x40 or 0x80 (every buffer of <= 4 bytes); (2) from_slice on inputs of 12 bytes starting with each JSON-text first byte (digits 0 and 7, minus, quote, [, {, t, f, n, tab, LF, CR) followed by 11 arbitrary bytes returns exactly the text parser's result (the text parser is replaced by a marker returning Error::InvalidToken, which no other path produces): such input never reaches the binary decoder
 //@ fns: from_slice, is_jsonb
